@@ -517,6 +517,7 @@ type envT struct {
 	blobCache sync.Map // blob sha -> []byte (small blobs only)
 	ancCache  sync.Map // "a b" -> bool
 	parCache  sync.Map // commit sha -> []string parents
+	cloCache  sync.Map // commit-ish sha -> set of LFS oids referenced by any commit reachable from it
 }
 
 func (w *worker) local() string   { return filepath.Join(w.R, "local") }
@@ -596,6 +597,21 @@ func (e *envT) pointersOf(w *worker, repo, sha string) []ptrRef {
 		}
 	}
 	return r
+}
+
+// closureOids: every LFS oid referenced by a spec pointer in any commit reachable from sha (memoised: content addressed).
+func (e *envT) closureOids(w *worker, repo, sha string) map[string]bool {
+	if v, ok := e.cloCache.Load(sha); ok {
+		return v.(map[string]bool)
+	}
+	m := map[string]bool{}
+	for _, c := range w.revList(repo, "", []string{sha}, nil) {
+		for _, p := range e.pointersOf(w, repo, c) {
+			m[p.Oid] = true
+		}
+	}
+	e.cloCache.Store(sha, m)
+	return m
 }
 
 func (e *envT) isAncestor(w *worker, repo, a, b string) bool {
